@@ -422,3 +422,88 @@ sut_reset(void)
 	clear_tzobs();
 	clear_bufpool();
 }
+
+/* ---- C03: mux session.  Opens every task stream of ICS, lists each constituent via a
+ * clone (at most CAP pops), then muxes the originals (mode 0: vmux, 1: variadic mux,
+ * 2: vmux_clon) and performs OPS ('k' = peek, 'p' = pop), printing what it sees.
+ * After the op string it pops AFTER more times to check that end-of-stream is sticky. */
+int
+sut_mux_session(const char *ics, size_t len, const char *ops, int cap, int mode, sut_buf_t *out)
+{
+	sut_strm_t *h[64];
+	echs_evstrm_t v[64];
+	echs_evstrm_t mux;
+	int n = sut_open_streams(ics, len, h, 64);
+
+	if (n <= 0) {
+		bprintf(out, "NOSTREAMS %d\n", n);
+		return -1;
+	}
+	if (mode == 1) {
+		/* the variadic call takes 1..8 or exactly 17 streams */
+		n = n >= 17 ? 17 : n > 8 ? 8 : n;
+	}
+	bprintf(out, "N %d\n", n);
+	for (int i = 0; i < n; i++) {
+		echs_evstrm_t c = clone_echs_evstrm(h[i]->s);
+		int k;
+
+		for (k = 0; k < cap; k++) {
+			echs_event_t e = echs_evstrm_pop(c);
+			if (echs_nul_event_p(e)) {
+				break;
+			}
+			bprintf(out, "C %d ", i);
+			binst(out, e.from);
+			bprintf(out, " %lld %lu\n", (long long)e.dur.d, (unsigned long)e.oid);
+		}
+		bprintf(out, k < cap ? "CEND %d\n" : "CMORE %d\n", i);
+		free_echs_evstrm(c);
+	}
+	for (int i = 0; i < n; i++) {
+		v[i] = h[i]->s;
+	}
+	switch (mode) {
+	default:
+	case 0:
+		mux = echs_evstrm_vmux(v, (size_t)n);
+		break;
+	case 2:
+		mux = echs_evstrm_vmux_clon(v, (size_t)n);
+		break;
+	case 1:
+		/* the variadic flavour clones its arguments */
+		switch (n) {
+		case 1: mux = echs_evstrm_mux(v[0], NULL); break;
+		case 2: mux = echs_evstrm_mux(v[0], v[1], NULL); break;
+		case 3: mux = echs_evstrm_mux(v[0], v[1], v[2], NULL); break;
+		case 4: mux = echs_evstrm_mux(v[0], v[1], v[2], v[3], NULL); break;
+		case 5: mux = echs_evstrm_mux(v[0], v[1], v[2], v[3], v[4], NULL); break;
+		case 6: mux = echs_evstrm_mux(v[0], v[1], v[2], v[3], v[4], v[5], NULL); break;
+		case 7: mux = echs_evstrm_mux(v[0], v[1], v[2], v[3], v[4], v[5], v[6], NULL); break;
+		case 8: case 9: case 10: case 11: case 12: case 13: case 14: case 15: case 16:
+			mux = echs_evstrm_mux(v[0], v[1], v[2], v[3], v[4], v[5], v[6], v[7], NULL); break;
+		default:
+			/* 17 streams: crosses the initial allocation of 16 slots */
+			mux = echs_evstrm_mux(v[0], v[1], v[2], v[3], v[4], v[5], v[6], v[7], v[8], v[9], v[10], v[11], v[12], v[13], v[14], v[15], v[16], NULL); break;
+		}
+		break;
+	}
+	if (mux == NULL) {
+		bput(out, "NOMUX\n", 6U);
+		return -1;
+	}
+	for (const char *o = ops; *o; o++) {
+		echs_event_t e = *o == 'p' ? echs_evstrm_pop(mux) : echs_evstrm_next(mux);
+
+		if (echs_nul_event_p(e)) {
+			bprintf(out, "%c END\n", *o == 'p' ? 'P' : 'K');
+			continue;
+		}
+		bprintf(out, "%c ", *o == 'p' ? 'P' : 'K');
+		binst(out, e.from);
+		bprintf(out, " %lld %lu\n", (long long)e.dur.d, (unsigned long)e.oid);
+	}
+	/* no cleanup: the process is a sandbox child */
+	return n;
+}
